@@ -64,6 +64,10 @@ func (s *State) assume(t *Term) {
 	if t == nil || isTrue(t) {
 		return
 	}
+	if isFalse(t) {
+		s.pc = append(s.pc, False)
+		return
+	}
 	if t.Op == "and" {
 		for _, a := range t.Args {
 			s.assume(a)
@@ -101,6 +105,7 @@ type Exec struct {
 	closureVar map[types.Object]*FuncInfo
 	aliasHook  func(*State)
 	fnValueOfCall *Term
+	inlining   map[*types.Var]bool
 	loopOrd    map[ast.Node]string
 	loopStack  [][]int
 	stmtsSeen, stmtsLowered, stmtsDropped int
@@ -188,6 +193,11 @@ func (x *Exec) oblige(s *State, kind, label string, goal *Term, text, pos string
 	if isTrue(goal) {
 		// still record trivially discharged obligations? keep the count honest: skip.
 		return
+	}
+	for _, h := range s.pc {
+		if isFalse(h) {
+			return // infeasible path
+		}
 	}
 	name := x.fi.Name + "#" + kind
 	if label != "" {
@@ -348,6 +358,11 @@ func verifyFunction(u *Universe, fi *FuncInfo, c *Contract) (obls []*Obligation,
 	outs := x.execBlock(st, fi.Body.List, entry)
 	// falling off the end = return without values
 	for _, o := range outs.normal {
+		if len(x.resultVars) > 0 && (x.resultVars[0].Name() == "" || x.resultVars[0].Name() == "_") {
+			// control cannot fall off the end of a function with results: the end must be unreachable
+			x.oblige(o, "dead", "end-of-function", False, "the end of the function body is unreachable", c.Pos)
+			continue
+		}
 		x.doReturn(o, nil, entry, fi.Body.Rbrace)
 	}
 	if len(outs.brk) > 0 || len(outs.cont) > 0 {
